@@ -462,7 +462,7 @@ func arraySort(key, leafSort string) string {
 	if strings.HasPrefix(key, "[]") {
 		return "(Array Int (Array Int " + leafSort + "))"
 	}
-	if strings.HasPrefix(key, "map[") {
+	if strings.HasPrefix(key, "map[") && !strings.HasSuffix(key, "#len") {
 		ks := "Int"
 		if strings.HasPrefix(key, "map[string]") {
 			ks = "String"
